@@ -6,6 +6,7 @@
    Built on the signal invariant J of ChanKProofs.v. *)
 From Coq Require Import List ZArith Lia Bool Arith.
 From LF Require Import Conc T1K ChanK ChanKBase ChanKProofs.
+From LF Require UChanProofs BChanProofs.
 Import ListNotations.
 Local Open Scope Z_scope.
 
@@ -120,9 +121,6 @@ Qed.
 Lemma at_rx_upd s t x r :
   at_rx (upd (stk s) t x r) = if Nat.eqb r t then at_rx x else at_rx (stk s r).
 Proof. unfold upd. destruct (Nat.eqb r t); reflexivity. Qed.
-
-Lemma at_rx_shape s : at_rx s = true -> exists p k, s = [CXchgC c_waiter RAISED 3; FC (KRX p k)] \/ True.
-Proof. intros _. exists [], O. right. exact I. Qed.
 
 (* a thread at a raise's exchange: after its step the word is RAISED *)
 Lemma rx_step s t :
@@ -425,12 +423,12 @@ Proof.
     assert (Pw : ph w s' = ph w s) by (apply ph_same; [exact Sw | apply Fs; auto]).
     rewrite Sw in K'. rewrite Pw in Sl'.
     destruct (Z.eq_dec (cell (mem s) (c_nxt (uhead s))) 0) as [Ez|Av].
-    2: { apply Ev_step; auto; intros [X _]; contradiction. }
+    2: { apply Ev_step; auto; try (intros [X _]; contradiction). }
     (* the queue was empty for the receiver: the step linked a message *)
     assert (Hh : cell (mem s') c_head = cell (mem s) c_head).
     { apply Fc. intros Ew. destruct (head_writers s t B Ew) as [(hd & v & p & k & Es)|(v & c & _ & Es)].
       - apply Ht. eapply Rk2; eauto.
-      - eapply other_no_mset; eauto. }
+      - exact (other_no_mset w s t c_head v [YLoop; FC c] Hj Ht Es). }
     unfold avail_u, uhead in Av'. rewrite Hh in Av'. fold (uhead s) in Av'.
     destruct (writes (stk s t)) as [c|] eqn:Ew.
     2: { exfalso. apply Av'. rewrite Fc by congruence. exact Ez. }
@@ -439,5 +437,290 @@ Proof.
     destruct (nxt_writers s t (uhead s) B Ew) as [(p & k & Es)|[(m & p & k & Es)|(v & c & _ & Es)]].
     + exfalso. apply Av'. unfold s', step. rewrite Es. cbn. apply upd_same.
     + left. exists t. unfold s', step. rewrite Es. cbn. rewrite upd_same. reflexivity.
-    + exfalso. eapply other_no_mset; eauto.
+    + exfalso. exact (other_no_mset w s t (c_nxt (uhead s)) v [YLoop; FC c] Hj Ht Es).
+Qed.
+
+Theorem uchan_J_U w size progs s :
+  single_waiter w progs -> UChanProofs.uchan_progs_ok w progs ->
+  reachable M (init size progs) s -> J w s /\ U_u w s.
+Proof.
+  intros Hs Hu R. induction R as [|s t R IH Hst].
+  - split; [apply init_J; exact Hs|]. intros _ K. cbn in K. discriminate K.
+  - destruct IH as [Hj U].
+    assert (Hj' : J w (fst (step s t))) by (apply J_step; auto).
+    split; [exact Hj'|]. apply U_u_step; auto.
+    destruct (UChanProofs.uchan_receiver_head w size progs s Hu R) as (A & B0 & _).
+    split; [exact A | exact B0].
+Qed.
+
+(* what the evidence means, using the signal theorem *)
+Lemma Ev_meaning w s :
+  J w s -> idle_beyond s -> Ev w s ->
+  (exists r, at_rx (stk s r) = true) \/
+  (registered w s /\ ((exists r, r <> w /\ committed s r w) \/ wake_delivered w s)) \/
+  (~ registered w s /\ word s = RAISED).
+Proof.
+  intros Hj Hi [E|E]; [left; exact E|]. right. unfold Wd in E. unfold registered.
+  destruct (in_reg (ph w s)) eqn:R.
+  - left. split; [reflexivity|]. apply no_lost_raise; auto.
+  - right. split; [congruence | exact E].
+Qed.
+
+Theorem uchan_receiver_not_stranded w size progs s :
+  single_waiter w progs -> UChanProofs.uchan_progs_ok w progs ->
+  reachable M (init size progs) s ->
+  wkind (stk s w) = Some WKURecv -> sleepy (ph w s) = true -> avail_u s ->
+  (exists r, at_rx (stk s r) = true) \/
+  (registered w s /\ ((exists r, r <> w /\ committed s r w) \/ wake_delivered w s)) \/
+  (~ registered w s /\ word s = RAISED).
+Proof.
+  intros Hs Hu R K Sl Av. destruct (uchan_J_U w size progs s Hs Hu R) as [Hj U].
+  apply Ev_meaning; auto. eapply idle_beyond_reachable; eauto.
+Qed.
+
+(* ---------- bounded channel ---------- *)
+Definition blow (s : st) : Z := cell (mem s) c_low.
+(* the slot the receiver reads next holds a message *)
+Definition avail_b (s : st) : Prop := cell (mem s) (c_buf (bidx (csize s) (blow s))) <> 0.
+
+(* the receiver is on its way to sleep without having taken that message: it sleeps / is
+   about to sleep in a blocking receive, or it is still reading but with a value of high
+   that is too old for the message (hi <= low: its test "hi > lo" will fail) *)
+Definition danger_b (w : nat) (s : st) : Prop :=
+  (wkind (stk s w) = Some WKBRecv /\ sleepy (ph w s) = true) \/
+  (exists hi p k, stk s w = [CLoadC c_low 2; FC (KQLow true hi p k)] /\ hi <= blow s) \/
+  (exists hi lo p k, stk s w = [CRead (c_buf (bidx (csize s) lo)); FC (KQSlot true hi lo p k)] /\ hi <= lo).
+
+Definition U_b (w : nat) (s : st) : Prop := avail_b s -> danger_b w s -> Ev w s.
+
+(* what the ring invariant gives (BChanProofs) *)
+Definition ring_ok (w : nat) (s : st) : Prop :=
+  (cell (mem s) c_high <= blow s -> cell (mem s) (c_buf (bidx (csize s) (blow s))) = 0) /\
+  (forall t blk hi lo p k, stk s t = [CRead (c_buf (bidx (csize s) lo)); FC (KQSlot blk hi lo p k)] ->
+     t = w /\ lo = blow s) /\
+  (forall t c v m l p k, stk s t = [CWrite c v; FC (KQClear m l p k)] -> t = w) /\
+  (forall t c v mo m p k, stk s t = [CStoreC c v mo; FC (KQStore m p k)] -> t = w).
+
+Lemma run_slots_three m t c :
+  slot_mutex m t = None ->
+  let '(m1, e1, s1) := run_slots cc m t [YLoop; FC c] in exists f, s1 = [f; YLoop; FC c].
+Proof.
+  intros Nm. unfold run_slots.
+  assert (Sl : forall mm, let '(m1, e1, s1) := sleep cc mm t [YLoop; FC c] in exists f, s1 = [f; YLoop; FC c]).
+  { intros mm. unfold sleep. destruct (pend mm t); eauto. }
+  destruct (slot_sched m t).
+  - set (m1 := wake (set_slot_sched m t false) t).
+    assert (M1 : slot_mutex m1 t = None) by (unfold m1, wake; destruct (blocked _ t); exact Nm).
+    destruct (slot_mpmc m1 t); cbn [slot_mutex set_mq set_slot_mpmc slot_wait]; rewrite M1;
+      (destruct (slot_wait m1 t) as [[c0 v0]|]; [eauto |
+       match goal with |- context [sleep cc ?mm t ?r] => pose proof (Sl mm) as S; destruct (sleep cc mm t r) as [[m2 e2] s2] end;
+       exact S]).
+  - destruct (slot_mpmc m t); cbn [slot_mutex set_mq set_slot_mpmc slot_wait]; rewrite Nm;
+      (destruct (slot_wait m t) as [[c0 v0]|]; [eauto |
+       match goal with |- context [sleep cc ?mm t ?r] => pose proof (Sl mm) as S; destruct (sleep cc mm t r) as [[m2 e2] s2] end;
+       exact S]).
+Qed.
+
+Lemma start_not_qlow t p k blk hi p' k' : start t p k <> [CLoadC c_low 2; FC (KQLow blk hi p' k')].
+Proof. destruct p as [|o r]; cbn; try discriminate. destruct o; discriminate. Qed.
+Lemma start_not_qslot t p k c blk hi lo p' k' : start t p k <> [CRead c; FC (KQSlot blk hi lo p' k')].
+Proof. destruct p as [|o r]; cbn; try discriminate. destruct o; discriminate. Qed.
+
+(* the only way to reach the receive's load of low / read of the slot *)
+Lemma to_qlow s t blk hi p k :
+  BInv s -> stk (fst (step s t)) t = [CLoadC c_low 2; FC (KQLow blk hi p k)] ->
+  stk s t = [CLoadC c_high 2; FC (KQHigh blk p k)] /\ hi = cell (mem s) c_high /\ mem (fst (step s t)) = mem s.
+Proof.
+  intros B. pose proof (b_shape s B t) as Sh. pose proof (b_nomutex s B t) as Nm. unfold step.
+  remember (stk s t) as S eqn:ES. destruct Sh.
+  32: destruct y.
+  all: cbn.
+  all: try match goal with a : wk |- _ => destruct a end.
+  all: repeat match goal with |- context [if ?b then _ else _] => destruct b eqn:? end.
+  all: cbn; rewrite ?upd_same, ?app_nil_r.
+  all: try (intros E; discriminate E).
+  all: try (intros E; exfalso; eapply start_not_qlow; exact E).
+  - intros E. injection E as <- <- <- <-. auto.
+  - destruct c; try contradiction; cbn; rewrite upd_same; intros E; discriminate E.
+  - pose proof (run_slots_three (mem s) t c Nm) as R.
+    destruct (run_slots cc (mem s) t [YLoop; FC c]) as [[m1 e1] s1]. destruct R as [f ->]. cbn. rewrite upd_same.
+    intros E; discriminate E.
+  - pose proof (run_slots_three (set_fstate (mem s) t ST_WAITING) t c Nm) as R.
+    destruct (run_slots cc (set_fstate (mem s) t ST_WAITING) t [YLoop; FC c]) as [[m1 e1] s1].
+    destruct R as [f ->]. cbn. rewrite upd_same. intros E; discriminate E.
+  - unfold sleep. destruct (pend (set_cell (mem s) c0 v) t); cbn; rewrite upd_same; intros E; discriminate E.
+Qed.
+
+Lemma to_qslot s t c blk hi lo p k :
+  BInv s -> stk (fst (step s t)) t = [CRead c; FC (KQSlot blk hi lo p k)] ->
+  stk s t = [CLoadC c_low 2; FC (KQLow blk hi p k)] /\ lo = cell (mem s) c_low /\
+  c = c_buf (bidx (csize s) lo) /\ mem (fst (step s t)) = mem s.
+Proof.
+  intros B. pose proof (b_shape s B t) as Sh. pose proof (b_nomutex s B t) as Nm. unfold step.
+  remember (stk s t) as S eqn:ES. destruct Sh.
+  32: destruct y.
+  all: cbn.
+  all: try match goal with a : wk |- _ => destruct a end.
+  all: repeat match goal with |- context [if ?b then _ else _] => destruct b eqn:? end.
+  all: cbn; rewrite ?upd_same, ?app_nil_r.
+  all: try (intros E; discriminate E).
+  all: try (intros E; exfalso; eapply start_not_qslot; exact E).
+  - intros E. injection E as <- <- <- <- <- <-. auto.
+  - destruct c0; try contradiction; cbn; rewrite upd_same; intros E; discriminate E.
+  - pose proof (run_slots_three (mem s) t c0 Nm) as R.
+    destruct (run_slots cc (mem s) t [YLoop; FC c0]) as [[m1 e1] s1]. destruct R as [f ->]. cbn. rewrite upd_same.
+    intros E; discriminate E.
+  - pose proof (run_slots_three (set_fstate (mem s) t ST_WAITING) t c0 Nm) as R.
+    destruct (run_slots cc (set_fstate (mem s) t ST_WAITING) t [YLoop; FC c0]) as [[m1 e1] s1].
+    destruct R as [f ->]. cbn. rewrite upd_same. intros E; discriminate E.
+  - unfold sleep. destruct (pend (set_cell (mem s) c1 v) t); cbn; rewrite upd_same; intros E; discriminate E.
+Qed.
+
+Lemma buf_writers s t i :
+  BInv s -> writes (stk s t) = Some (c_buf i) ->
+  (exists x p k, stk s t = [CWrite (c_buf i) x; FC (KBWrite p k)]) \/
+  (exists m lo p k, stk s t = [CWrite (c_buf i) 0; FC (KQClear m lo p k)]) \/
+  (exists v c, ycont c /\ stk s t = [MSetWait (c_buf i) v; YLoop; FC c]).
+Proof.
+  intros B H. pose proof (b_shape s B t) as Sh.
+  remember (stk s t) as S eqn:ES. destruct Sh; cbn in H; try discriminate H;
+    try (injection H as H; exfalso; cells).
+  - injection H as H. rewrite H. left; eauto.
+  - injection H as H. rewrite H. right; left; eauto.
+  - destruct y; cbn in H; try discriminate H. injection H as ->.
+    right; right. exists v, c. split; [assumption | reflexivity].
+Qed.
+
+Lemma low_writers s t :
+  BInv s -> writes (stk s t) = Some c_low ->
+  (exists v m p k, stk s t = [CStoreC c_low v 3; FC (KQStore m p k)]) \/
+  (exists v c, ycont c /\ stk s t = [MSetWait c_low v; YLoop; FC c]).
+Proof.
+  intros B H. pose proof (b_shape s B t) as Sh.
+  remember (stk s t) as S eqn:ES. destruct Sh; cbn in H; try discriminate H;
+    try (injection H as H; exfalso; cells).
+  - left; eauto.
+  - destruct y; cbn in H; try discriminate H. injection H as ->.
+    right. exists v, c. split; [assumption | reflexivity].
+Qed.
+
+Lemma csize_step s t : csize (fst (step s t)) = csize s.
+Proof. unfold step. destruct (kstep cc (cret (csize s)) (mem s) t (stk s t)) as [[m1 e1] s1]. reflexivity. Qed.
+
+Lemma U_b_step w s t :
+  J w s -> J w (fst (step s t)) -> ring_ok w s -> ring_ok w (fst (step s t)) -> status_of s t = SReady ->
+  U_b w s -> U_b w (fst (step s t)).
+Proof.
+  intros Hj Hj' (Rz & Rs & Rc & Rst) (Rz' & Rs' & _) Hst U Av' Dg'.
+  pose proof (j_base w s Hj) as B.
+  destruct (step_frame s t B) as [Fc Fs].
+  pose proof (csize_step s t) as Cs.
+  set (s' := fst (step s t)) in *.
+  destruct (Nat.eq_dec t w) as [->|Ht].
+  - (* the receiver steps *)
+    destruct Dg' as [[K' Sl']|[(hi & p & k & Es' & Hhi)|(hi & lo & p & k & Es' & Hhi)]].
+    + destruct (w_sleepy_step w s WKBRecv Hj Hst K' Sl') as [(K & Sl & Na)|[X|[(X & _)|(_ & Me & hi & lo & p & k & Es & Hn)]]];
+        try discriminate X.
+      * (* already on its way to sleep: the wait does not touch the ring *)
+        assert (Hsame : forall c, c = c_low \/ (exists i, c = c_buf i) -> cell (mem s') c = cell (mem s) c).
+        { intros c Hc. apply Fc. intros Ew.
+          destruct (wait_writes w s WKBRecv Hj K) as [X|[X|X]]; rewrite X in Ew; try discriminate Ew;
+            injection Ew as <-; destruct Hc as [Hc|[n Hc]]; cells. }
+        assert (Av : avail_b s).
+        { unfold avail_b, blow in *. rewrite Cs in Av'. rewrite (Hsame c_low) in Av' by auto.
+          rewrite Hsame in Av' by eauto. exact Av'. }
+        apply Ev_step; auto.
+        -- intros [_ X]. contradiction.
+        -- intros [_ X]. rewrite X in Sl. discriminate Sl.
+        -- apply U; auto. left. auto.
+      * (* it has just read the slot and decided to wait *)
+        fold s' in Me.
+        destruct (Rs w true hi lo p k Es) as [_ El].
+        assert (Av : avail_b s).
+        { unfold avail_b, blow in *. rewrite Cs, Me in Av'. exact Av'. }
+        assert (Hle : hi <= lo).
+        { destruct (Z.lt_ge_cases lo hi); [|assumption]. exfalso. apply Hn. split; [|assumption].
+          unfold avail_b in Av. rewrite <- El in Av. exact Av. }
+        apply Ev_step; auto.
+        -- intros [_ X]. unfold ph in X. rewrite Es in X. discriminate X.
+        -- intros [_ X]. unfold ph in X. rewrite Es in X. discriminate X.
+        -- apply U; auto. right; right. exists hi, lo, p, k. auto.
+    + (* it has just loaded high: the message would be visible in that value *)
+      exfalso. destruct (to_qlow s w true hi p k B Es') as (Es & Eh & Me). fold s' in Me.
+      unfold avail_b, blow in *. rewrite Cs, Me in *. apply Av'. apply Rz. rewrite <- Eh. exact Hhi.
+    + (* it has just loaded low *)
+      destruct (to_qslot s w _ true hi lo p k B Es') as (Es & El & _ & Me). fold s' in Me.
+      assert (Av : avail_b s).
+      { unfold avail_b, blow in *. rewrite Cs, Me in Av'. exact Av'. }
+      apply Ev_step; auto.
+      * intros [_ X]. unfold ph in X. rewrite Es in X. discriminate X.
+      * intros [_ X]. unfold ph in X. rewrite Es in X. discriminate X.
+      * apply U; auto. right; left. exists hi, p, k. split; [exact Es|]. unfold blow. rewrite <- El. exact Hhi.
+  - (* another thread steps *)
+    assert (Sw : stk s' w = stk s w) by (unfold s'; apply stk_step_other; auto).
+    assert (Pw : ph w s' = ph w s) by (apply ph_same; [exact Sw | apply Fs; auto]).
+    assert (Hl : cell (mem s') c_low = cell (mem s) c_low).
+    { apply Fc. intros Ew. destruct (low_writers s t B Ew) as [(v & m & p & k & Es)|(v & c & _ & Es)].
+      - apply Ht. eapply Rst; eauto.
+      - exact (other_no_mset w s t c_low v [YLoop; FC c] Hj Ht Es). }
+    assert (Dg : danger_b w s).
+    { unfold danger_b, blow in *. rewrite Sw, Pw, Hl, Cs in Dg'. exact Dg'. }
+    destruct (Z.eq_dec (cell (mem s) (c_buf (bidx (csize s) (blow s)))) 0) as [Ez|Av].
+    2: { apply Ev_step; auto; try (intros [X _]; contradiction). }
+    (* the slot was empty: the step wrote the message *)
+    unfold avail_b, blow in Av'. rewrite Cs, Hl in Av'. fold (blow s) in Av'.
+    destruct (writes (stk s t)) as [c|] eqn:Ew.
+    2: { exfalso. apply Av'. rewrite Fc by congruence. exact Ez. }
+    destruct (Nat.eq_dec c (c_buf (bidx (csize s) (blow s)))) as [->|Hc].
+    2: { exfalso. apply Av'. rewrite Fc by congruence. exact Ez. }
+    destruct (buf_writers s t _ B Ew) as [(x & p & k & Es)|[(m & lo & p & k & Es)|(v & c & _ & Es)]].
+    + left. exists t. unfold s', step. rewrite Es. cbn. rewrite upd_same. reflexivity.
+    + exfalso. apply Ht. eapply Rc; eauto.
+    + exfalso. exact (other_no_mset w s t _ v [YLoop; FC c] Hj Ht Es).
+Qed.
+
+Lemma ring_ok_reachable w size progs s :
+  0 < size -> BChanProofs.bchan_progs_ok w progs -> reachable M (init size progs) s -> ring_ok w s.
+Proof.
+  intros Hz Hp R.
+  assert (Cz : csize s = size).
+  { clear Hz Hp. induction R as [|s t R IH _]; [reflexivity|]. cbn. rewrite csize_step. exact IH. }
+  pose proof (BChanProofs.bchan_empty_slot_zero size w progs s Hz Hp R) as [E1 _].
+  pose proof (BChanProofs.bchan_receiver_lo size w progs s Hz Hp R) as [L1 _].
+  pose proof (BChanProofs.bchan_capacity size w progs s Hz Hp R) as (_ & _ & C3).
+  destruct (BChanProofs.reachable_bireach size progs s R) as (x & IR & Ex).
+  pose proof (BChanProofs.bchan_fifo size w progs x Hz Hp IR) as (_ & _ & _ & _ & _ & F6).
+  cbn in E1, L1, C3, F6. rewrite Ex in F6. unfold ring_ok, blow. rewrite Cz.
+  split; [exact E1|]. split; [|split].
+  - intros t blk hi lo p k E. destruct (L1 t blk hi lo p k E) as (A & _ & C). auto.
+  - intros t c v m l p k E. destruct (C3 t c v m l p k E) as (A & _). exact A.
+  - intros t c v mo m p k E. destruct (F6 t c v mo m p k E) as (A & _). exact A.
+Qed.
+
+Theorem bchan_J_U w size progs s :
+  0 < size -> single_waiter w progs -> BChanProofs.bchan_progs_ok w progs ->
+  reachable M (init size progs) s -> J w s /\ U_b w s.
+Proof.
+  intros Hz Hs Hp R. induction R as [|s t R IH Hst].
+  - split; [apply init_J; exact Hs|]. intros _ [[K _]|[(hi & p & k & E & _)|(hi & lo & p & k & E & _)]];
+      cbn in K || cbn in E; discriminate.
+  - destruct IH as [Hj U].
+    assert (Hj' : J w (fst (step s t))) by (apply J_step; auto).
+    split; [exact Hj'|]. apply U_b_step; auto.
+    + eapply ring_ok_reachable; eauto.
+    + eapply ring_ok_reachable; eauto. apply (reach_step M (init size progs) s t R Hst).
+Qed.
+
+Theorem bchan_receiver_not_stranded w size progs s :
+  0 < size -> single_waiter w progs -> BChanProofs.bchan_progs_ok w progs ->
+  reachable M (init size progs) s ->
+  wkind (stk s w) = Some WKBRecv -> sleepy (ph w s) = true -> avail_b s ->
+  (exists r, at_rx (stk s r) = true) \/
+  (registered w s /\ ((exists r, r <> w /\ committed s r w) \/ wake_delivered w s)) \/
+  (~ registered w s /\ word s = RAISED).
+Proof.
+  intros Hz Hs Hp R K Sl Av. destruct (bchan_J_U w size progs s Hz Hs Hp R) as [Hj U].
+  apply Ev_meaning; auto.
+  - eapply idle_beyond_reachable; eauto.
+  - apply U; auto. left. auto.
 Qed.
